@@ -10,7 +10,7 @@ strategy, the channel and the aggregator, which is where the property's rational
  R3 name-preserving copies: StrategyResponse::from, complete_probe → Probe::complete, Probe::failed copy each field to the field of the same role
     (= C19.R1 hand-off, imported, plus Probe::failed).
  R4 RTT provenance: the sample recorded by the aggregator is received.duration_since(sent) (C05.R3); `received` is the SystemTime::now() taken in
-    extract_probe_resp before parsing, `sent` the SystemTime::now() taken in send_request and handed to next_probe / reissue_probe.
+    extract_probe_resp before parsing, `sent` a SystemTime::now() of its own taken in send_request for every probe issued or re-issued (never shared between two attempts) and handed to next_probe / reissue_probe.
  R5 per-status counter effect table of the aggregator (= C05.R1/R2, imported): none invented, dropped or counted twice.
  R6 publish-once pairing (= C08.R3, C20.O4 imported): one publication and one advance per round, one handler call per publication; only
     complete_probe turns Awaited into Complete and only for the first genuine response (= C03.R2/R4, imported); what counts as genuine is
@@ -105,10 +105,15 @@ def run(chk, tier):
         bad = None
         n = 0
         for o in outs:
+            stamps = []
             for c in user_calls(o, r'TracerState::(next_probe|reissue_probe)$'):
                 n += 1
                 if not re.fullmatch(r'now', vshow(c[7][1])):
                     bad = '%s is given %s as the send time' % (short(c[1]), vshow(c[7][1])[:50])
+                # every probe put on the wire carries its own clock reading: a re-issued probe must not inherit the stamp of the refused attempt
+                if key(c[7][1]) in stamps:
+                    bad = '%s re-uses the clock reading of an earlier attempt as the send time of a new probe (the round-trip time of the re-issued probe would include the refused attempt)' % short(c[1])
+                stamps.append(key(c[7][1]))
         if bad or not n:
             chk.fail('R4', 'sent[%s]' % proto, fn_loc(fs), 'send_request[%s]: %s' % (proto, bad or 'no probe issued'), key='R4|sent|' + proto)
         else:
